@@ -144,6 +144,40 @@ CHECKS = {
         "statement about the hash family.",
         "DESIGN.md 4 C14",
     ),
+    "C08": (
+        "model_checking",
+        "stateless exploration of the real parallel_add under a controlled scheduler (simulated spawn "
+        "context): all item->worker assignment vectors, merge-tree sweep for 1..9 workers, "
+        "deviation-bounded (<=1, thorough <=2) exploration of all other scheduling points; conformance "
+        "replay of a real spawned run",
+        "The real helpers code (parallel_add, _fill_queue, _log_worker, _worker, parallel_merging, "
+        "_merge_worker, attach_shared_memory) runs in-process; only multiprocessing's Process/Queue, "
+        "sleep and the clock are replaced by a scheduler that owns every hand-off and pickles process "
+        "arguments like spawn. Every assignment of k items to w workers for all 7 sketch combinations "
+        "(+ log8/log16), every 'which workers got nothing' pattern, n_workers 1..9, and every single "
+        "deviation from run-to-block are executed; each execution must return and match the "
+        "sequential reference (HLL registers, n_added, n_records, C01/C03/C04 bounds). One real "
+        "spawned run (thorough: four) is replayed in the simulator and must be bit-identical.",
+        "Simulated processes are serialised (one baton); true parallel writes to one block are outside "
+        "the property (workers own disjoint blocks). The generator-input clause is known finding F3.",
+        "DESIGN.md 3.2, 4 C08",
+    ),
+    "C19": (
+        "fault_enumeration",
+        "exhaustive fault enumeration on the real parallel_add under the controlled scheduler: every "
+        "per-item fault vector x every assignment; every (worker, item ordinal) death x every "
+        "assignment; one real os._exit run compared with its simulated replay",
+        "Every element of {ok, raise-before, raise-after}^k x assignments (k<=4, w<=3 quick; k<=5 "
+        "thorough) and every single worker death (os._exit model) at every item ordinal x assignments "
+        "is one complete execution of the real code. Raising callbacks: the call returns, every other "
+        "item's full contribution is present, nothing beyond touched items, n_records counts exactly "
+        "the successful items. Death: the call ends with an exception, never with a result, no "
+        "deadlock and no hang within the step horizon. A real spawned run with os._exit(3) must end "
+        "like its simulated replay.",
+        "os._exit is modelled by SimExit (thread ends with exit code 3, no worker-loop cleanup). "
+        "Serialised simulated processes.",
+        "DESIGN.md 3.2, 4 C19",
+    ),
     "C09": (
         "model_checking",
         "exhaustive enumeration of counter pairs through the real merge kernels: all 256x256 log8 "
